@@ -30,18 +30,25 @@ What is proved:
   (iii) `dce_correct_usedBindings`: (i)+(ii) for whole module bodies and the real rule.
   (iv)  `dce_correct_partial`: the abstract-caller version of (i) for closure-free expressions (any
         behaviour of the non-builtin functions).
-  (v)   `unnecessaryAlloc_correct_partial` / `optimize_correct_partial`: see below.
+  (v)   `unnecessaryAlloc_correct_partial`: the allocation rewrite is exact (equal outcome and
+        log) for closure-free expressions whose rewritten nodes are projections out of record
+        literals with a fresh binder (`Dce.uaOK`, evaluated by the driver on every case);
+        `optimize_correct_partial`: the whole of `optimize` for closure-free module bodies.
+  Not proved: the allocation rewrite for expressions that define closures (needs a value relation
+  up to reordered/extended environments); that `shapeOK`/`bindersCoherent`/`uaOK` hold for every
+  output of the translator (they are evaluated per case).
 -/
 import GluonModel.OptCore
 import GluonModel.Dce
 import GluonModel.Proofs.Dce
 import GluonModel.Proofs.DceRel
 import GluonModel.Proofs.Graph
+import GluonModel.Proofs.Ua
 import GluonModel.Generated.OptPipeline
 
 namespace GluonModel.Props.C04
 open GluonModel.OptCore GluonModel.Dce GluonModel.Proofs.Dce GluonModel.Proofs.DceRel
-  GluonModel.Proofs.Graph GluonModel.Generated
+  GluonModel.Proofs.Graph GluonModel.Proofs.Ua GluonModel.Generated
 
 /-- The pipeline `optimize` runs at this commit is the one the model implements: the inliner is
     switched off, the passes are `optimize_unnecessary_allocation → (purity) → used_bindings →
@@ -170,6 +177,54 @@ theorem dce_correct_observable (used : String → Bool) (fuel : Nat) (e : Expr)
   · right
     refine ⟨ha, l2, ?_⟩
     rw [h1, lrel_firstOrder h2 hl]
+
+/-! ### The unnecessary-allocation rewrite and the whole pipeline -/
+
+/-- `optimize_unnecessary_allocation` changes nothing observable: same outcome, same host calls —
+    for closure-free expressions, any behaviour of the called functions, any environment. -/
+theorem unnecessaryAlloc_correct_partial (call : Caller) (e : Expr) (hn : noRec e = true)
+    (ho : uaOK e = true) (env : Env) :
+    eval call env (unnecessaryAlloc e) = eval call env e :=
+  ua_correct call e 0 hn ho env
+
+/-- The whole active pipeline (`Dce.optimize` = optimize.rs:289-297 with INLINE off) on a
+    closure-free module body. -/
+theorem optimize_correct_partial (fuel : Nat) (e : Expr) (hn : noRec e = true)
+    (ho : uaOK e = true) (hs : shapeOK (unnecessaryAlloc e) = true)
+    (hc : bindersCoherent (unnecessaryAlloc e) = true)
+    (hw : isWrong (run fuel e).out = false) :
+    Allowed (run fuel e) (run fuel (optimize e)) := by
+  have h1 : run fuel (unnecessaryAlloc e) = run fuel e :=
+    unnecessaryAlloc_correct_partial (applyN fuel) e hn ho []
+  have h2 := dce_correct_partial_usedBindings fuel (unnecessaryAlloc e) (ua_noRec e 0 hn) hs hc
+    (by rw [h1]; exact hw)
+  rw [h1] at h2
+  exact h2
+
+/-- For programs that define closures the second step of `optimize` (graph + elimination, applied
+    to the rewritten expression) is covered in full; only the rewrite step itself is restricted
+    to the closure-free fragment above. -/
+theorem optimize_dce_step_correct (fuel : Nat) (e : Expr)
+    (hs : shapeOK (unnecessaryAlloc e) = true) (hc : bindersCoherent (unnecessaryAlloc e) = true)
+    (hw : isWrong (run fuel (unnecessaryAlloc e)).out = false) :
+    AllowedRel (inList (usedBindings (unnecessaryAlloc e))) (run fuel (unnecessaryAlloc e))
+      (run fuel (optimize e)) :=
+  dce_correct_usedBindings fuel (unnecessaryAlloc e) hs hc hw
+
+/-- `{ x = vlog 1, y = 2 }.y` in core form: rewritten to `let dummy = vlog 1 in let y1 = 2 in y1`;
+    the host call of the dropped field stays. -/
+def projWitness : Expr :=
+  .matchE (.data "<record>" ["x", "y"]
+      (.cons (.call (.ident "vlog") (.cons (.const (.int 1)) .nil)) (.cons (.const (.int 2)) .nil)))
+    (.cons (.record [("y", "y1")]) (.ident "y1") .nil)
+
+example : noRec projWitness = true ∧ uaOK projWitness = true ∧
+    shapeOK (unnecessaryAlloc projWitness) = true ∧
+    bindersCoherent (unnecessaryAlloc projWitness) = true ∧
+    isWrong (run 3 projWitness).out = false := by decide
+example : (run 3 (optimize projWitness)).log.length = 1 := by decide
+example : Allowed (run 3 projWitness) (run 3 (optimize projWitness)) :=
+  optimize_correct_partial 3 projWitness (by decide) (by decide) (by decide) (by decide) (by decide)
 
 /-! ### The defect D2 (repaired by `fix:` 7751831) as a regression witness -/
 
